@@ -861,7 +861,7 @@ class ElemEngine:
                 while tag(r) in ('index', 'field', 'deref') and depth < 6:
                     r = r[1]
                     depth += 1
-                if tag(r) == 'item' and depth > 0 and chain_touches(r[2]):
+                if tag(r) == 'item' and chain_touches(r[2]):     # depth 0: `*item = ..` through a `&mut` item (references are transparent in terms)
                     add(self.ev(env, s.value))
             self._memo[mkey] = out
             return out
